@@ -410,3 +410,60 @@ def coeff_of(r, leaf):
         elif e > 1:
             raise Undecided('not affine in %s' % leaf)
     return Rat(out, r.d)
+
+
+def run_block(ev, stmts, records=None, follow_if=False):
+    """Straight-line symbolic execution: assignments update ev.env (keys: names, dotted attributes and
+    normalised subscript texts); loops are executed once with a symbolic loop variable; every store is
+    appended to `records` as (target_text, Rat, stmt)."""
+    for st in stmts:
+        if isinstance(st, ast.Assign):
+            try:
+                val = ev.ev(st.value)
+            except Exception:
+                val = L('?' + norm(st.value))
+            for t in st.targets:
+                _store(ev, t, val, st, records)
+        elif isinstance(st, ast.AnnAssign) and st.value is not None:
+            _store(ev, st.target, ev.ev(st.value), st, records)
+        elif isinstance(st, ast.AugAssign):
+            key = dotted(st.target) or norm(st.target)
+            cur = ev.ev(st.target)
+            rhs = ev.ev(st.value)
+            if isinstance(st.op, ast.Add):
+                val = cur + rhs
+            elif isinstance(st.op, ast.Sub):
+                val = cur - rhs
+            elif isinstance(st.op, ast.Mult):
+                val = cur * rhs
+            elif isinstance(st.op, ast.Div):
+                val = cur / rhs
+            else:
+                val = L('?aug')
+            ev.env[key] = val
+            if records is not None:
+                records.append((key, val, st))
+        elif isinstance(st, ast.For):
+            run_block(ev, st.body, records, follow_if)
+        elif isinstance(st, ast.If) and follow_if:
+            run_block(ev, st.body, records, follow_if)
+            run_block(ev, st.orelse, records, follow_if)
+        elif isinstance(st, ast.Expr) and records is not None and isinstance(st.value, ast.Call):
+            records.append(('call:' + (dotted(st.value.func) or norm(st.value.func)), st.value, st))
+
+
+def _store(ev, t, val, st, records):
+    if isinstance(t, (ast.Tuple, ast.List)):
+        for i, e in enumerate(t.elts):
+            _store(ev, e, L('%s#%d' % (val.key(), i)), st, records)
+        return
+    key = dotted(t)
+    if key is None and isinstance(t, ast.Subscript):
+        sl = t.slice
+        idx = sl.elts if isinstance(sl, ast.Tuple) else [sl]
+        key = '%s[%s]' % (dotted(t.value) or norm(t.value), ','.join(ev.ev(i).key() if not isinstance(i, ast.Slice) else norm(i) for i in idx))
+    if key is None:
+        key = norm(t)
+    ev.env[key] = val
+    if records is not None:
+        records.append((key, val, st))
